@@ -403,7 +403,12 @@ class C09(Check):
                   'on String, Variant, RefCount::Ptr and Xml::Variant handles the counter of a payload equals the number of live handles referring to it, '
                   'a payload is released exactly once, exactly when its last handle goes, never accessed afterwards and modified in place only while '
                   'exactly one handle refers to it, and the CONTENTS read through the handles (for Ptr: the identities of the objects) are those of the '
-                  'value-semantics Spec over whole histories (a write through one handle changes no other); (concurrent) release/counting safety for EVERY '
+                  'value-semantics Spec over whole histories (a write through one handle changes no other); (handles stored inside payloads) for every history of '
+                  'create/null/copy/assign (same-type, converting, operator=(C*))/reset/destroy over locations <variable, depth> of RefCount::Ptr handles to a pointee '
+                  'type with a Ptr member - so the source of an assignment may be a handle stored inside the object the target is the last handle of, and the target '
+                  'may be a member handle - the counter of an object equals the handles to it in variables plus those inside objects that exist, an object is '
+                  'released exactly once, exactly when no such handle is left (the release cascades and stops at an object with another handle), no operation and no '
+                  'walk along the chains accesses a released object; (concurrent) release/counting safety for EVERY '
                   'schedule of the interleaving machine in which threads owning distinct handles to a common payload copy, assign, swap, modify '
                   '(append / write access only / String::clear), read and drop them, each call split into its atomic increment / decrement-and-test / '
                   'plain read `ref == 1` accesses, plus completion: every schedule that lets each thread finish ends with released <-> no handle left; '
@@ -432,17 +437,21 @@ class C09(Check):
                   'from the live payloads. One payload type per case (Variant: list, map, array or string; Xml::Variant: element or text): a write access '
                   'through the accessor of another type than the one stored (type-changing branch) is not driven; Xml::Variant text payloads have no '
                   'write accessor (value assignment only), element payloads no value assignment. Handles stored inside payloads are modelled for '
-                  'RefCount::Ptr (machine RcNest: a pointee type with a Ptr member, locations <variable, depth>, sequential only); for that machine the Model and the reference object (RcNest.pstep) are compared with the implementation, no theorem yet; '
+                  'RefCount::Ptr (machine RcNest: a pointee type with a Ptr member, locations <variable, depth>, sequential only); the theorems about that machine are about the Model; that it computes the same objects, chains and destructions as the counter-free reference '
+                  'object (RcNest.pstep: after every operation the objects no handle refers to are destroyed, repeatedly) is validated by correspondence only; swap of member '
+                  'handles and handles travelling between threads are not in that machine; '
                   'nested Variant payloads are driven only through viaelem; String/Variant constructors from literals (uncounted inline data) are '
                   'outside the model. The converting Ptr(const Ptr<D>&) / operator=(const Ptr<D>&) are driven in sequential cases only (kinds conv).')
-    technique = ('machine-checked proof (Coq 8.16) about an executable model (sequential handle/block machine + interleaving machine + trace acceptor) + differential '
+    technique = ('machine-checked proof (Coq 8.16) about an executable model (sequential handle/block machine + machine with handles inside payloads + interleaving machine + trace acceptor) + differential '
                  'correspondence (ASan/UBSan): sequential histories op by op with contents and a ledger of every allocation, concurrent scenarios with real '
                  'threads under a baton-passing scheduler hooked at every atomic operation whose recorded access trace is replayed step by step through the '
                  'extracted machine, and free-running threads compared on their end state')
     rule = ('sequential cases = handle histories (create/null/copy/fromraw/assign/assignraw/assignval/reset/swap/write/detach/destroy) on 6 variables of one '
             'handle type (String; Variant holding a list, map, array or string; RefCount::Ptr<T>, plain or through Ptr<Derived>; Xml::Variant holding an element '
             'or a text); non-trivial when some payload was shared by two live variables (a reference counter of 2 or more was observed) and at least one '
-            'payload was released. concurrent cases = 2-4 threads owning 0-2 handles each to one common payload, programs of '
+            'payload was released. nest cases = histories over 4 RefCount::Ptr variables and their chains (pointee with a Ptr member, same-type or derived member type): '
+            'create/null/copy/assign/assignraw/reset/destroy on locations <variable, depth 0..4>; non-trivial when a handle stored inside a payload was followed '
+            '(a chain of two or more objects was observed) and at least one object was released. concurrent cases = 2-4 threads owning 0-2 handles each to one common payload, programs of '
             'copy/assign/drop/write/reserve/reset/read/swap over their own variables, 1-3 explicit schedules (`go`, access trace replayed) or free runs; '
             'non-trivial when at least two threads execute a counting call (copy, assign, drop, write, reserve, reset). distinct = distinct op text')
     assumptions = ['sequential consistency of the __sync_* builtins and of the plain reads of `ref` (concurrent clause)',
